@@ -84,6 +84,16 @@ class C09(Spec):
             for perms0 in ("r k*", "rwix zz"):
                 for pv in ("get k1", "set k1 n", "get zz", "set zz n", "increment k1", "remove zz", "keys", "get $$token"):
                     cases.append(base_setup(perms0) + CREDS["usertoken"] + [f"C 2 {pv}", f"C 1 {mid}", f"C 2 {pv}", "C 2 get zz", "C 1 keys"])
+        # degenerate permission lists (an entry without a key list, without kinds, empty pieces): whatever the parser makes of them,
+        # an entry that names no key must grant nothing
+        for perms0 in ("r", "rw", "rwix", "r |w zz", "|", "r ,", "r ,k1", " k*", "r  k*", "r k*|", "r k*|w", "x"):
+            for pv in ("get k1", "get zz", "set k1 n", "set zz n", "increment k1", "remove zz", "watch zz", "keys"):
+                cases.append(base_setup(perms0) + CREDS["usertoken"] + [f"C 2 {pv}", "C 1 keys"])
+        # the user's list is REMOVED after it reached the disk: the entry stays in memory as a tombstone (value `<Empty>`), which is read as a list too
+        for perms0 in ("r k*", "rwix *"):
+            for snap in (["C 1 snapshot false", "SNAP"], []):
+                for pv in ("get k1", "get zz", "set zz n", "watch zz", "get-safe q", "keys"):
+                    cases.append(base_setup(perms0) + CREDS["usertoken"] + snap + [f"C 2 {pv}", "C 1 remove $$permission_$u", f"C 2 {pv}", "C 2 get zz", "C 2 get q", "C 1 keys"])
         # session-order cases: every short sequence of login attempts, then a probe outside / inside the user's list
         logins = ["use-db t u upw", "use-db t bad", "use-db t tok", "use-db nodb tok", "use-db t u bad", "use-db t x y z"]
         for n in (2, 3):
